@@ -32,7 +32,7 @@ var c07Values = map[string]val.V{
 	// values whose printed form equals that of a stored value of another type or shape
 	":s10": val.S("10"), ":ssxy": val.SS("x y"),
 	// sets whose members are all new / all present (an ADD or DELETE that stops after one member shows)
-	":ss2": val.SS("n1", "n2"), ":ns2": val.NS("8", "9"), ":bs2": val.BS([]byte{7}, []byte{8}), ":nsall": val.NS("1", "2"), ":bsall": val.BS([]byte{1}, []byte{2}),
+	":cent": val.N("0.01"), ":ss2": val.SS("n1", "n2"), ":ns2": val.NS("8", "9"), ":bs2": val.BS([]byte{7}, []byte{8}), ":nsall": val.NS("1", "2"), ":bsall": val.BS([]byte{1}, []byte{2}),
 }
 
 func c07Item() val.Item {
@@ -49,6 +49,8 @@ func c07Item() val.Item {
 		// numbers stored in a valid but not canonical notation (trailing zero, exponent, leading zero)
 		"nc": val.N("2.50"),
 		"ne": val.N("1E2"),
+		// a two-decimal amount whose scaled double lies just below an integer (19.99 * 100)
+		"p": val.N("19.99"),
 	}
 }
 
@@ -71,7 +73,7 @@ func c07Actions(names map[string]string) []c07act {
 	}{
 		{rx.RV(":s"), "value"}, {rx.RV(":n"), "value"}, {rx.RV(":l"), "value"}, {rx.RV(":m"), "value"}, {rx.RV(":null"), "value"}, {rx.RV(":s10"), "value"}, {rx.RV(":ssxy"), "value"},
 		{rx.RP("a"), "path"}, {rx.RP("b"), "path"}, {rx.RP("m.x"), "path"}, {rx.RP("l[0]"), "path"}, {rx.RP("nope"), "path-missing"}, {rx.RP("u"), "path"},
-		{rx.RPlus(rx.RP("a"), rx.RV(":n")), "plus"}, {rx.RPlus(rx.RP("nc"), rx.RV(":n")), "plus"}, {rx.RMinus(rx.RP("ne"), rx.RV(":n")), "minus"}, {rx.RP("nc"), "path"}, {rx.RPlus(rx.RV(":n"), rx.RP("a")), "plus"}, {rx.RMinus(rx.RP("a"), rx.RV(":n")), "minus"}, {rx.RMinus(rx.RV(":n"), rx.RP("m.x")), "minus"},
+		{rx.RPlus(rx.RP("a"), rx.RV(":n")), "plus"}, {rx.RPlus(rx.RP("nc"), rx.RV(":n")), "plus"}, {rx.RMinus(rx.RP("ne"), rx.RV(":n")), "minus"}, {rx.RP("nc"), "path"}, {rx.RPlus(rx.RP("p"), rx.RV(":cent")), "plus"}, {rx.RPlus(rx.RV(":n"), rx.RP("a")), "plus"}, {rx.RMinus(rx.RP("a"), rx.RV(":n")), "minus"}, {rx.RMinus(rx.RV(":n"), rx.RP("m.x")), "minus"},
 		{rx.RPlus(rx.RP("b"), rx.RV(":n")), "plus-mistyped"}, {rx.RPlus(rx.RP("nope"), rx.RV(":n")), "plus-missing"}, {rx.RPlus(rx.RP("a"), rx.RV(":s")), "plus-mistyped"},
 		{rx.RIfNE("a", rx.RV(":s")), "if_not_exists"}, {rx.RIfNE("nope", rx.RV(":s")), "if_not_exists"}, {rx.RIfNE("m.x", rx.RV(":n")), "if_not_exists"}, {rx.RIfNE("m.q", rx.RV(":n")), "if_not_exists"},
 		{rx.RPlus(rx.RIfNE("nope", rx.RV(":n")), rx.RV(":n")), "if_not_exists+plus"},
@@ -86,7 +88,7 @@ func c07Actions(names map[string]string) []c07act {
 	for _, t := range []string{"a", "b", "m.x", "m.nokey", "l[0]", "l[1]", "l[2]", "l[9]", "nope", "#a", "u.k", "u.k[0]", "u.k[1]", "u.k[1].n", "u.k[1].nokey", "u.k[9].n", "nope.x", "ss", "m.#k", "#m.#k"} {
 		out = append(out, c07act{rx.Remove(t), top(t), "REMOVE"})
 	}
-	for _, pv := range [][2]string{{"a", ":n"}, {"nc", ":n"}, {"ne", ":n"}, {"a", ":s"}, {"nw", ":n"}, {"nw", ":ss"}, {"nw", ":s"}, {"ss", ":ss"}, {"ss", ":ns"}, {"ns", ":ns"}, {"bs", ":bs"}, {"b", ":n"}, {"#a", ":n"}, {"ss", ":s"}, {"ss", ":ss2"}, {"ns", ":ns2"}, {"bs", ":bs2"}, {"nw", ":bs2"}} {
+	for _, pv := range [][2]string{{"a", ":n"}, {"nc", ":n"}, {"ne", ":n"}, {"p", ":cent"}, {"a", ":s"}, {"nw", ":n"}, {"nw", ":ss"}, {"nw", ":s"}, {"ss", ":ss"}, {"ss", ":ns"}, {"ns", ":ns"}, {"bs", ":bs"}, {"b", ":n"}, {"#a", ":n"}, {"ss", ":s"}, {"ss", ":ss2"}, {"ns", ":ns2"}, {"bs", ":bs2"}, {"nw", ":bs2"}} {
 		out = append(out, c07act{rx.Add(pv[0], pv[1]), top(pv[0]), "ADD"})
 	}
 	for _, pv := range [][2]string{{"ss", ":ss"}, {"ss", ":ssall"}, {"ns", ":ns"}, {"bs", ":bs"}, {"nope", ":ss"}, {"a", ":ss"}, {"ss", ":ns"}, {"b", ":ss"}, {"ns", ":nsall"}, {"bs", ":bsall"}} {
